@@ -201,6 +201,61 @@ def oracle(cfg, actions, sysm, snaps):
     return None
 
 
+def cancelled_call_probe(rep):
+    """directed (C11, also run by C18): a full bounded cache; a call for a new key is cancelled -- or fails -- while the
+    wrapped function is suspended: nothing was stored, so nothing was evicted either: the old entries are still hits"""
+    fails = 0
+
+    class Tick:
+        def __await__(self):
+            yield "tick"
+    for maxsize in (1, 2, 3):
+        for how in ("cancel", "fail"):
+            calls = []
+
+            @a.lru_cache(maxsize=maxsize)
+            async def f(x):
+                calls.append(x)
+                await Tick()
+                if x == 99 and how == "fail":
+                    raise KeyError(x)
+                return x * x
+
+            def run(coro, throw=None):
+                try:
+                    coro.send(None)
+                    if throw is not None:
+                        coro.throw(throw)
+                    else:
+                        coro.send(None)
+                except StopIteration as e:
+                    return ("ok", e.value)
+                except BaseException as e:  # noqa
+                    return ("exn", type(e).__name__)
+                return ("still suspended",)
+            for k in range(maxsize):
+                run(f(k))
+            before = f.cache_info()
+            out = run(f(99), throw=Cancelled() if how == "cancel" else None)
+            after = f.cache_info()
+            ncalls = len(calls)
+            again = [run(f(k)) for k in range(maxsize)]
+            why = None
+            if out[0] != "exn":
+                why = "the interrupted call ended with %r" % (out,)
+            elif after.currsize != before.currsize:
+                why = "currsize went from %d to %d although the %s call stored nothing" % (before.currsize, after.currsize, "cancelled" if how == "cancel" else "failing")
+            elif len(calls) != ncalls:
+                why = "entries present before the interrupted call were recomputed afterwards (invocations %r)" % (calls[ncalls:],)
+            elif again != [("ok", k * k) for k in range(maxsize)]:
+                why = "results afterwards %r" % (again,)
+            rep.count(("interrupted-call", maxsize, how), True)
+            if why:
+                fails += 1
+                rep.violation("lru-conc:interrupted-call", {"maxsize": maxsize, "interruption": how, "why": why})
+    return fails
+
+
 def coq_cfg(cfg):
     def op(o):
         if o[0] == "call":
@@ -307,6 +362,7 @@ def run(tier, seed):
             rep.violation("lru-conc:model-mismatch", {"broken": "correspondence impl<->Model/LruConc.v (qtrace), per-action snapshots", "case": sh[j][:4000]}, no_input=not rep.has_failing_input())
     rep.cov["traces_validated_against_impl"] = len(texts)
     rep.notes["model_mismatches"] = mism
+    cancelled_call_probe(rep)
     if not proofs_ok:
         rep.violation("proof-broken", {"broken": rep.notes.get("broken_file", "?"), "log": rep.notes.get("build_log_tail", "")[-1500:]}, no_input=True)
     return rep.finish()
